@@ -31,6 +31,45 @@ func drainValues(it seq.Iterator[int], n int) []int {
 	return out
 }
 
+// companion is a small generator over another element type (loop with post statement,
+// continue, break, return): whatever the runtime keeps per PACKAGE rather than per iterator
+// (memo tables, pools, counters) is shared across element types as well.
+func companion[V any](vals []V) seq.Seq[V] {
+	return seq.Delay(func() seq.Seq[V] {
+		i := 0
+		return seq.Combine(
+			seq.For(func() bool { return i < len(vals) }, func() { i++ },
+				seq.Delay(func() seq.Seq[V] {
+					if i%4 == 3 {
+						return seq.Continue[V]()
+					}
+					if i == len(vals)-1 {
+						return seq.Bind(vals[i], func() seq.Seq[V] { return seq.Break[V]() })
+					}
+					return seq.Bind(vals[i], func() seq.Seq[V] { return seq.Normal[V]() })
+				})),
+			seq.Delay(func() seq.Seq[V] { return seq.Return[V]() }))
+	})
+}
+
+func companionWant[V any](vals []V) (out []V) {
+	for i, v := range vals {
+		if i%4 != 3 {
+			out = append(out, v)
+		}
+	}
+	return
+}
+
+func drainAny[V any](it seq.Iterator[V]) (out []V) {
+	for it.MoveNext() {
+		out = append(out, it.Current())
+	}
+	return
+}
+
+type racePoint struct{ X, Y int }
+
 // RunRace plays the scenario; it returns a description of the first sequence mismatch.
 func RunRace(sc *RaceScenario) string {
 	var root seq.Seq[int]
@@ -39,7 +78,6 @@ func RunRace(sc *RaceScenario) string {
 	} else {
 		root = RootSeq(sc.Term)
 	}
-	solo := drainValues(seq.Start(root), sc.N)
 	got := make([][]int, sc.K)
 	var wg sync.WaitGroup
 	start := make(chan struct{})
@@ -53,12 +91,39 @@ func RunRace(sc *RaceScenario) string {
 			got[g] = drainValues(it, sc.N)
 		}()
 	}
+	// iterators of two other element types next to them
+	strs := make([]string, 0, sc.K+5)
+	pts := make([]racePoint, 0, sc.K+5)
+	for i := 0; i < sc.K+5; i++ {
+		strs, pts = append(strs, fmt.Sprint("s", i)), append(pts, racePoint{i, sc.N})
+	}
+	var gotS []string
+	var gotP []racePoint
+	wg.Add(2)
+	go func() {
+		defer wg.Done()
+		<-start
+		gotS = drainAny(seq.Start(companion(strs)))
+	}()
+	go func() {
+		defer wg.Done()
+		<-start
+		gotP = drainAny(seq.Start(companion(pts)))
+	}()
 	close(start)
 	wg.Wait()
+	// (the solo run comes last: nothing is warmed up on this goroutine beforehand)
+	solo := drainValues(seq.Start(root), sc.N)
 	for g := range got {
 		if fmt.Sprint(got[g]) != fmt.Sprint(solo) {
 			return fmt.Sprintf("iterator %d consumed in parallel delivered %v, alone %v", g, got[g], solo)
 		}
+	}
+	if fmt.Sprint(gotS) != fmt.Sprint(companionWant(strs)) {
+		return fmt.Sprintf("string iterator consumed in parallel delivered %v, alone %v", gotS, companionWant(strs))
+	}
+	if fmt.Sprint(gotP) != fmt.Sprint(companionWant(pts)) {
+		return fmt.Sprintf("struct iterator consumed in parallel delivered %v, alone %v", gotP, companionWant(pts))
 	}
 	return ""
 }
